@@ -67,7 +67,7 @@ Definition audit_table : list (string * (gclass * string)) := [
   ("QPDFJob::AttConfig::endAddAttachment()::now", (GImmutable, "time stamp string computed once under C++11 static initialisation, then only read"));
   ("QPDFJob::Config::setPageLabels(std::vector<std::string, std::allocator<std::string > > const&)::page_label_re", (GImmutable, "function-local const object (regex / lookup table / literal) built once under C++11 static initialisation, then only read through const members"));
   ("QPDFJob::initializeFromJson(std::string const&, bool)::schema", (GImmutable, "function-local const object (regex / lookup table / literal) built once under C++11 static initialisation, then only read through const members"));
-  ("QPDFLogger::defaultLogger()::l", (GService, "process-wide default logger (documented as shared); created once, its pipelines are replaced only by explicit configuration calls"));
+  ("QPDFLogger::defaultLogger()::l", (GService, "THE process-wide default logger: every QPDF starts with a pointer to it; modelled as the shared cell lg_default of Sys/LogModel.v with the rule (logger_frame) that per-document redirection - QPDF::setLogger, QPDF::setOutputStreams - replaces the document's pointer and never writes this object; only explicit calls on QPDFLogger::defaultLogger() reconfigure it (documented as global)"));
   ("QPDFObjectHandle::getArrayItem(int) const::msg", (GImmutable, "table / literal initialised before main or at first use; only read"));
   ("QPDFObjectHandle::getKey(std::string const&) const::msg", (GImmutable, "table / literal initialised before main or at first use; only read"));
   ("QTC::TC_real(char const*, char const*, int)::active", (GTestOnly, "test-coverage bookkeeping; every call site is compiled out by QPDF_DISABLE_QTC=1 (the default of the build, checked by the check)"));
@@ -123,3 +123,6 @@ Definition d6_statics : list string := [
   "null_oh";
   "qpdf::impl::Parser::add_null()::null_obj"
 ].
+
+(* process-wide cells that are modelled explicitly (with a frame rule) rather than only classified *)
+Definition modelled_cells : list string := ["QPDFLogger::defaultLogger()::l"].
